@@ -90,7 +90,9 @@ def _verify(item):
             return [w_, w_ + 1, w_ - 1] + extra_terms + path_terms
         ex = H.Exec(classes, nw.__dict__)
         ex.side_obligations = []
+        t_e = time.time()
         outs = ex.run(cls, meth, H.Ref(self_, cls), args, h0, pre, hyps)
+        out['t_explore'] = round(time.time() - t_e, 1)
         out['paths'] = len(outs)
         out['functions'] = sorted(ex.functions_read)
 
@@ -177,6 +179,8 @@ def _verify(item):
             vals = {'self': HN._val(m, self_)}
             for k_, c_ in info.items(): vals[k_] = HN._val(m, c_)
             return HN.extract(m, h0, NDOM), vals
+        out['t_prove'] = round(out['solver_s'], 1)
+        t_s = time.time()
         all_proved = all(v == 'unsat' for _, v in out['obligations'])
         L = sel(h0.llen, self_)
         variants = [[], [L >= 2], [L >= 1, sel(h0.fixed, self_)], [L >= 1, z3.Not(sel(h0.fixed, self_))]]
@@ -202,6 +206,7 @@ def _verify(item):
                     break
             except Exception as e:
                 out['cross_checks'].append({'error': f'{type(e).__name__}: {e}'})
+        out['t_sample'] = round(time.time() - t_s, 1)
         names_failing = [nm for nm, v in out['obligations'] if v != 'unsat' and not nm.startswith('cross-check')]
         for nm, (pc_, goal_) in zip(names_failing, failing):
             try:
@@ -222,11 +227,10 @@ def _verify(item):
         if n_ret == 0:
             out['obligations'].append(('vacuity: a normal return is reachable', 'sat'))
         else:
-            # cover: the precondition is satisfiable together with WF (bounded witness search by the solver)
-            s = z3.Solver(); s.set('timeout', TIMEOUT_MS)
-            for x in hyps + pre: s.add(x)
-            r = s.check()
-            out['cover'] = str(r)
+            # cover: the precondition is satisfiable together with WF - witnessed by the finite-domain samples below
+            out['cover'] = 'sat' if any('inputs' in c for c in out.get('cross_checks', [])) else 'no finite sample found'
+            if out['cover'] != 'sat':
+                out['obligations'].append(('vacuity: WF and the preconditions have a (finite) model', 'sat'))
     except H.Unsupported as e:
         out['unsupported'] = str(e)
     except Exception as e:
@@ -338,8 +342,8 @@ def run(prop, tier, jobs, seed):
             else:
                 print(f'UNDECIDED {ob} (refuted by the solver; not in the baseline of discharged obligations)')
                 if status == 0: status = 2
-        if len(samples) < 4:
-            samples.append({'function': r['name'], 'paths': r['paths'], 'obligations': [f'{n} -> {v}' for n, v in r['obligations'][:8]]})
+        if len(samples) < 40:
+            samples.append({'function': r['name'], 'paths': r['paths'], 'seconds': {k: r.get(k) for k in ('t_explore', 't_prove', 't_sample', 'wall_s')}, 'obligations': [f'{n} -> {v}' for n, v in r['obligations'][:8]]})
     cov = {'obligations': n_ob, 'discharged': n_dis, 'obligations_U': n_ob, 'functions_under_contract': functions,
            'source_read_from_repo': sorted(read), 'unsupported_by_mode_U': unsupported, 'samples': samples,
            'solver_time_U_s': round(sum(r.get('solver_s', 0) for r in res), 2),
